@@ -491,6 +491,15 @@ func (fr *frame) applyModSpec(m ModSpec, ctx *specCtx, st *State) {
 		}
 		fr.frameGhostWhole(vc.keyGhost(g), st)
 		vc.bump(st, vc.keyGhost(g))
+		if m.Name == "chsent" || m.Name == "chrecvd" {
+			// the per-element-type variants
+			for _, k := range vc.allKeys() {
+				if strings.HasPrefix(k, "G:"+m.Name+"#") {
+					fr.frameGhostWhole(k, st)
+					vc.bump(st, k)
+				}
+			}
+		}
 	case "ghostwhere":
 		g := fr.enc.db.Ghosts[m.Name]
 		if g == nil || g.Key == nil {
@@ -912,13 +921,22 @@ func (fr *frame) chanEvent(ch ssa.Value, x ssa.Value, st *State) {
 // (mutex typestate, channel send counters).
 var unframedGhost = map[string]bool{"G:locked": true, "G:lockcount": true, "G:guard_path": true, "G:guard_id": true}
 
+// ghostKeyMatch: a modifies item "ghost chsent" / "ghost chrecvd" covers the
+// per-element-type variants of the channel counters.
+func ghostKeyMatch(declared, key string) bool {
+	if declared == key {
+		return true
+	}
+	return (declared == "G:chsent" || declared == "G:chrecvd") && strings.HasPrefix(key, declared+"#")
+}
+
 func (fr *frame) frameGhostWhole(key string, st *State) {
 	e := fr.enc
 	if !e.frameCheck || unframedGhost[key] {
 		return
 	}
 	for _, d := range e.declMods {
-		if (d.key == key || (d.key == "*" && !e.isBookKey(key))) && d.idx == "" && d.pred == nil {
+		if (ghostKeyMatch(d.key, key) || (d.key == "*" && !e.isBookKey(key))) && d.idx == "" && d.pred == nil {
 			return
 		}
 	}
@@ -938,7 +956,7 @@ func (fr *frame) frameGhostAt(key, idx string, st *State, cond string) {
 		alts = append(alts, fmt.Sprintf("(>= (vref %s) hw!0)", idx), fmt.Sprintf("(= (vref %s) 0)", idx))
 	}
 	for _, d := range e.declMods {
-		if d.key != key && (d.key != "*" || e.isBookKey(key)) {
+		if !ghostKeyMatch(d.key, key) && (d.key != "*" || e.isBookKey(key)) {
 			continue
 		}
 		if d.pred != nil {
